@@ -86,6 +86,7 @@ def handle (line : String) : String :=
   | rest => go rest
 where go : List String → String
   | ["canon", h] => onTbs h canonLine
+  | ["isprecert", h] => onTbs h fun _ lt => boolStr (isPrecertificate lt)
   | ["remarshal", h] => onTbs h fun _ lt => showRes (lt.map marshalTbs)
   | ["rm", which, h] =>
     let oid := if which = "sct" then some sct else if which = "poison" then some poison else fromHex which
